@@ -66,9 +66,9 @@ theorem seekTo_oob_panics (file : Bytes) (idx : Idx) (start : Nat) (s : St) (hst
 buffer, the first `n` of them appended to the output, `StepOk` -/
 inductive StepPost (sched : Nat → Nat) (idx : Idx) (s : St) (lo bl : Nat) (buf : Bytes) :
     Res (Except IoErr Nat × St × Nat × List Nat) → Prop where
-  | mk (tr n lo' : Nat) (kept : Bytes) (hk : kept = s.rest.take n)
+  | mk (tr n lo' : Nat) (out : Bytes) (hout : out = buf ++ s.rest.take n)
       (ok : StepOk idx (IdxFa.fillBuf sched s).avail lo bl tr n lo') :
-      StepPost sched idx s lo bl buf (Res.ok (.ok n, IdxFa.consume (IdxFa.fillBuf sched s) tr, lo', buf ++ kept))
+      StepPost sched idx s lo bl buf (Res.ok (.ok n, IdxFa.consume (IdxFa.fillBuf sched s) tr, lo', out))
 
 /-- … and at the end of the file: the truncation error -/
 inductive EofPost : Res (Except IoErr Nat × St × Nat × List Nat) → Prop where
@@ -119,12 +119,14 @@ theorem readLine_step (f : Bytes) (sched : Nat → Nat) (idx : Idx) (s : St) (lo
   generalize ha : (IdxFa.fillBuf sched s).avail = a at *
   generalize hsrc : List.take a s.rest = src at *
   repeat' (first | io_head | split)
-  all_goals simp only [List.drop_zero, Nat.sub_zero]
+  all_goals try simp only [List.drop_zero, Nat.sub_zero]
   all_goals (refine StepPost.mk _ _ _ _ ?_ ⟨?_, ?_, ?_, ?_, ?_, ?_⟩)
   all_goals first
     | omega
     | (split <;> omega)
-    | (subst hsrc; rw [List.take_take]; congr 1; omega)
+    | (subst hsrc; first
+        | (rw [List.take_take]; congr 2; omega)
+        | simp)
 
 /-! ## `read_into_buffer` -/
 
@@ -168,7 +170,10 @@ theorem while1_spec (f file : Bytes) (sched : Nat → Nat) (idx : Idx) (stop : N
       · have hpost := readLine_step f sched idx s lo cur line (stop - cur) seq hlb hlB hs h64 inv hb hne
         generalize hres : Gen.SrcIdxFa.readLine (fillBufOp sched) consumeOp s (toRec idx) lo (stop - cur) seq = res at hpost
         cases hpost with
-        | mk tr n lo' kept hk ok =>
+        | mk tr n lo' out hout ok =>
+          generalize hk : s.rest.take n = kept at hout
+          have hk := hk.symm
+          subst hout
           obtain ⟨line', inv', hshort, hnr, hnl, hnb⟩ := inv_step f sched idx s lo cur line (stop - cur) tr n lo' hlb hlB inv ok
           have hsub : Rs.sub (stop - cur) n = Res.ok (stop - (cur + n)) := by
             rw [Rs.sub_ok hnb]; congr 1; omega
@@ -280,5 +285,335 @@ theorem readIntoBuffer_eq_model (file : Bytes) (sched : Nat → Nat) (idx : Idx)
     obtain ⟨m, _, _, _, hm⟩ := hspecM.2 hlt hcut
     refine ⟨_, by simp only [h, Res.ok_bind]; rfl, ?_⟩
     simp only [hm, Agrees, toIo]
+
+/-! ## The byte iterator: `fill_buffer`, `next` -/
+
+/-- position of the base at the stream position when the column is inside the bases of the line -/
+theorem pos_cur_of_inv {f : Bytes} {idx : Idx} {s : St} {lo cur line : Nat} (inv : Inv f idx s lo cur line)
+    (hlb : 0 < idx.lb) (hlo : lo < idx.lb) (j : Nat) (hj : lo + j < idx.lb) :
+    pos idx (cur + j) = idx.off + line * idx.lB + lo + j := by
+  have hc : cur + j = line * idx.lb + (lo + j) := by have := inv.cur_eq; omega
+  rw [hc, pos_line idx hlb line (lo + j) hj]; omega
+
+/-- the loop `while self.buf.is_empty() { self.bases_left -= self.reader.read_line(.., bases_to_read, &mut self.buf)?; }` -/
+theorem fill_while_spec (f : Bytes) (sched : Nat → Nat) (idx : Idx) (cap bi btr bl cur : Nat)
+    (hlb : 0 < idx.lb) (hlB : idx.lb < idx.lB) (hs : ∀ k, 0 < sched k) (h64 : idx.lB < 2 ^ 64)
+    (hbtr : 0 < btr) (hbb : btr ≤ bl) :
+    ∀ gas s lo line, Inv f idx s lo cur line → s.rest.length + 1 < gas →
+      (pos idx cur < f.length →
+        ∃ s' lo' n line', 0 < n ∧ n ≤ btr ∧
+          Gen.SrcIdxFa.fillBuffer_while1 (fillBufOp sched) consumeOp cap (toRec idx) bi btr gas s bl lo [] =
+            Res.ok (.next (s', bl - n, lo', slice f idx cur (cur + n))) ∧
+          Inv f idx s' lo' (cur + n) line' ∧ s'.rest.length ≤ s.rest.length ∧
+          (∀ j, j < n → pos idx (cur + j) < f.length)) ∧
+      (f.length ≤ pos idx cur →
+        ∃ s' lo' buf', Gen.SrcIdxFa.fillBuffer_while1 (fillBufOp sched) consumeOp cap (toRec idx) bi btr gas s bl lo [] =
+            Res.ok (.ret (.error eofErr, s', bl, lo', buf', bi))) := by
+  intro gas
+  induction gas with
+  | zero => intro s lo line _ h; omega
+  | succ gas ih =>
+    intro s lo line inv hgas
+    by_cases hne : s.rest = []
+    · have hpost := readLine_eof sched idx s lo btr [] hne inv.avail_le
+      generalize hres : Gen.SrcIdxFa.readLine (fillBufOp sched) consumeOp s (toRec idx) lo btr [] = res at hpost
+      cases hpost with
+      | mk s' lo' buf' =>
+        have hbase : f.length ≤ idx.off + line * idx.lB + lo := by
+          have := inv.rest_eq; rw [hne] at this
+          exact List.drop_eq_nil_iff.mp this.symm
+        have hp := inv.base_le_pos hlb hlB
+        refine ⟨fun h => by omega, fun _ => ⟨s', lo', buf', ?_⟩⟩
+        rw [Gen.SrcIdxFa.fillBuffer_while1]
+        simp only [List.isEmpty_nil, if_true, hres, Res.ok_bind, Res.pure_eq_ok, pure_bind]
+    · have hpost := readLine_step f sched idx s lo cur line btr [] hlb hlB hs h64 inv hbtr hne
+      generalize hres : Gen.SrcIdxFa.readLine (fillBufOp sched) consumeOp s (toRec idx) lo btr [] = res at hpost
+      cases hpost with
+      | mk tr n lo' out hout ok =>
+        obtain ⟨line', inv', hshort, hnr, hnl, hnb⟩ := inv_step f sched idx s lo cur line btr tr n lo' hlb hlB inv ok
+        have hsub : Rs.sub bl n = Res.ok (bl - n) := Rs.sub_ok (by omega)
+        have hunf : Gen.SrcIdxFa.fillBuffer_while1 (fillBufOp sched) consumeOp cap (toRec idx) bi btr (gas + 1) s bl lo [] =
+            Gen.SrcIdxFa.fillBuffer_while1 (fillBufOp sched) consumeOp cap (toRec idx) bi btr gas
+              (IdxFa.consume (IdxFa.fillBuf sched s) tr) (bl - n) lo' out := by
+          rw [Gen.SrcIdxFa.fillBuffer_while1]
+          simp only [List.isEmpty_nil, if_true, hres, Res.ok_bind, Res.pure_eq_ok, hsub, pure_bind]
+        have hlen : 0 < s.rest.length := List.length_pos_iff.mpr hne
+        by_cases hn0 : n = 0
+        · -- only terminator bytes were skipped: the buffer is still empty, the loop goes on
+          subst hn0
+          simp only [List.take_zero, List.append_nil] at hout
+          subst hout
+          rw [Nat.add_zero] at inv'
+          rw [Nat.sub_zero] at hunf
+          obtain ⟨ih1, ih2⟩ := ih _ lo' line' inv' (by omega)
+          refine ⟨fun h => ?_, fun h => ?_⟩
+          · obtain ⟨s', lo'', n, line'', h1, h2, h3, h4, h5, h6⟩ := ih1 h
+            exact ⟨s', lo'', n, line'', h1, h2, by rw [hunf, h3], h4, by omega, h6⟩
+          · obtain ⟨s', lo'', buf', h1⟩ := ih2 h
+            exact ⟨s', lo'', buf', by rw [hunf, h1]⟩
+        · have hnpos : 0 < n := by omega
+          have hlo : lo < idx.lb := by
+            rcases Nat.lt_or_ge lo idx.lb with h | h
+            · exact h
+            · have : max lo idx.lb = lo := by omega
+              omega
+          have hposj : ∀ j, j < n → pos idx (cur + j) = idx.off + line * idx.lB + lo + j := by
+            intro j hj
+            have : max lo idx.lb = idx.lb := by omega
+            exact pos_cur_of_inv inv hlb hlo j (by omega)
+          have hslice : s.rest.take n = slice f idx cur (cur + n) :=
+            take_eq_slice f s.rest idx _ cur n inv.rest_eq hnr hposj
+          have hrl2 : s.rest.length = f.length - (idx.off + line * idx.lB + lo) := by
+            rw [inv.rest_eq]; exact List.length_drop
+          have hout' : out = slice f idx cur (cur + n) := by rw [hout, List.nil_append, hslice]
+          have hne' : out.isEmpty = false := by
+            rw [List.isEmpty_eq_false_iff, ← List.length_pos_iff, hout', slice_length]; omega
+          have hgas' : ∃ g, gas = g + 1 := ⟨gas - 1, by omega⟩
+          obtain ⟨g, hg⟩ := hgas'
+          have hend : Gen.SrcIdxFa.fillBuffer_while1 (fillBufOp sched) consumeOp cap (toRec idx) bi btr gas
+              (IdxFa.consume (IdxFa.fillBuf sched s) tr) (bl - n) lo' out =
+              Res.ok (.next (IdxFa.consume (IdxFa.fillBuf sched s) tr, bl - n, lo', out)) := by
+            rw [hg, Gen.SrcIdxFa.fillBuffer_while1]
+            simp only [hne', Bool.false_eq_true, if_false, Res.pure_eq_ok]
+          have hin : ∀ j, j < n → pos idx (cur + j) < f.length := by
+            intro j hj; rw [hposj j hj]; omega
+          refine ⟨fun _ => ⟨_, lo', n, line', hnpos, hnb, by rw [hunf, hend, hout'], inv', by omega, hin⟩, fun h => ?_⟩
+          exfalso
+          have := hposj 0 hnpos
+          rw [Nat.add_zero] at this
+          omega
+
+/-- **`fill_buffer`**: from a state with the loop invariant and `bases_left > 0`: the next chunk of bases (at least one,
+at most `bases_left`, ending at a line end or where the buffered bytes end) when the next base lies inside the file, the
+truncation error otherwise.  The chunk size asked for (`capacity` of the private buffer, a constant, …) only has to be positive. -/
+theorem fillBuffer_spec (f : Bytes) (sched : Nat → Nat) (idx : Idx) (cap bi bl cur : Nat) (buf : Bytes)
+    (hlb : 0 < idx.lb) (hlB : idx.lb < idx.lB) (hs : ∀ k, 0 < sched k) (h64 : idx.lB < 2 ^ 64)
+    (hcap : 0 < cap) (hbl : 0 < bl) (fuel : Nat) (s : St) (lo line : Nat)
+    (inv : Inv f idx s lo cur line) (hfuel : s.rest.length + 1 < fuel) :
+    (pos idx cur < f.length →
+      ∃ s' lo' n line', 0 < n ∧ n ≤ bl ∧
+        Gen.SrcIdxFa.fillBuffer (fillBufOp sched) consumeOp cap s (toRec idx) bl lo buf bi fuel =
+          Res.ok (.ok (), s', bl - n, lo', slice f idx cur (cur + n), 0) ∧
+        Inv f idx s' lo' (cur + n) line' ∧ s'.rest.length ≤ s.rest.length ∧
+        (∀ j, j < n → pos idx (cur + j) < f.length)) ∧
+    (f.length ≤ pos idx cur →
+      ∃ s' bl' lo' buf' bi', Gen.SrcIdxFa.fillBuffer (fillBufOp sched) consumeOp cap s (toRec idx) bl lo buf bi fuel =
+          Res.ok (.error eofErr, s', bl', lo', buf', bi')) := by
+  have hass : Rs.assert (decide (bl > 0)) = Res.ok () := Rs.assert_ok (by simpa using hbl)
+  unfold Gen.SrcIdxFa.fillBuffer
+  simp only [hass, Res.ok_bind]
+  first
+    | generalize hbtr : min cap bl = btr
+    | generalize hbtr : min Gen.SrcIdxFa.MAX_FASTA_BUFFER_SIZE bl = btr
+  have hb : 0 < btr ∧ btr ≤ bl := by
+    subst hbtr
+    first
+      | omega
+      | (simp only [Gen.SrcIdxFa.MAX_FASTA_BUFFER_SIZE]; omega)
+  obtain ⟨h1, h2⟩ := fill_while_spec f sched idx cap bi btr bl cur hlb hlB hs h64 hb.1 hb.2 fuel s lo line inv hfuel
+  refine ⟨fun h => ?_, fun h => ?_⟩
+  · obtain ⟨s', lo', n, line', a1, a2, a3, a4, a5, a6⟩ := h1 h
+    exact ⟨s', lo', n, line', a1, by omega, by simp only [a3, Res.ok_bind, Res.pure_eq_ok], a4, a5, a6⟩
+  · obtain ⟨s', lo', buf', a1⟩ := h2 h
+    exact ⟨s', bl, lo', buf', bi, by simp only [a1, Res.ok_bind, Res.pure_eq_ok]⟩
+
+
+/-- the iterator state: reader, `bases_left`, `line_offset`, `buf`, `buf_idx` -/
+abbrev ItSt := St × Nat × Nat × List Nat × Nat
+
+/-- what a consumer of the iterator sees: `next` is called until it returns `None` (`calls` bounds the number of calls) -/
+def drainIt (sched : Nat → Nat) (cap : Nat) (idx : Idx) (fuel : Nat) : Nat → ItSt → Res (List (Except IoErr Nat))
+  | 0, _ => Res.fuel
+  | calls + 1, st => do
+    let r ← Gen.SrcIdxFa.next (fillBufOp sched) consumeOp cap st.1 (toRec idx) st.2.1 st.2.2.1 st.2.2.2.1 st.2.2.2.2 fuel
+    match r.1 with
+    | none => pure []
+    | some item => do
+      let more ← drainIt sched cap idx fuel calls r.2
+      pure (item :: more)
+
+/-- items of a successful / failed run -/
+def okItems (b : Bytes) : List (Except IoErr Nat) := b.map .ok
+
+theorem next_buffered (sched : Nat → Nat) (cap : Nat) (idx : Idx) (fuel : Nat) (s : St) (bl lo : Nat) (buf : Bytes) (i : Nat)
+    (hi : i < buf.length) (h64 : buf.length < 2 ^ 64) :
+    Gen.SrcIdxFa.next (fillBufOp sched) consumeOp cap s (toRec idx) bl lo buf i fuel =
+      Res.ok (some (.ok buf[i]), s, bl, lo, buf, i + 1) := by
+  have e1 : Rs.idx buf i = Res.ok buf[i] := Rs.idx_ok hi
+  have e2 : Rs.add 64 i 1 = Res.ok (i + 1) := Rs.add_ok (by omega)
+  have e3 : Rs.add 64 1 i = Res.ok (i + 1) := by
+    have : Rs.add 64 1 i = Res.ok (1 + i) := Rs.add_ok (by omega)
+    rw [this, Nat.add_comm]
+  simp [Gen.SrcIdxFa.next, hi, e1, e2, e3]
+
+theorem next_done (sched : Nat → Nat) (cap : Nat) (idx : Idx) (fuel : Nat) (s : St) (lo : Nat) (buf : Bytes) (i : Nat)
+    (hi : buf.length ≤ i) :
+    Gen.SrcIdxFa.next (fillBufOp sched) consumeOp cap s (toRec idx) 0 lo buf i fuel =
+      Res.ok (none, s, 0, lo, buf, i) := by
+  have : ¬ i < buf.length := by omega
+  simp [Gen.SrcIdxFa.next, this]
+
+
+theorem next_fill_ok (sched : Nat → Nat) (cap : Nat) (idx : Idx) (fuel : Nat) (s s' : St) (bl bl' lo lo' : Nat)
+    (buf chunk : Bytes) (i : Nat) (hi : buf.length ≤ i) (hbl : 0 < bl) (hc : 0 < chunk.length)
+    (hfb : Gen.SrcIdxFa.fillBuffer (fillBufOp sched) consumeOp cap s (toRec idx) bl lo buf i fuel =
+      Res.ok (.ok (), s', bl', lo', chunk, 0)) :
+    Gen.SrcIdxFa.next (fillBufOp sched) consumeOp cap s (toRec idx) bl lo buf i fuel =
+      Res.ok (some (.ok chunk[0]), s', bl', lo', chunk, 1) := by
+  have h1 : ¬ i < buf.length := by omega
+  have e1 : Rs.idx chunk 0 = Res.ok chunk[0] := Rs.idx_ok hc
+  simp [Gen.SrcIdxFa.next, h1, hbl, hfb, e1]
+
+theorem next_fill_err (sched : Nat → Nat) (cap : Nat) (idx : Idx) (fuel : Nat) (s s' : St) (bl bl' lo lo' : Nat)
+    (buf buf' : Bytes) (i i' : Nat) (e : IoErr) (hi : buf.length ≤ i) (hbl : 0 < bl)
+    (hfb : Gen.SrcIdxFa.fillBuffer (fillBufOp sched) consumeOp cap s (toRec idx) bl lo buf i fuel =
+      Res.ok (.error e, s', bl', lo', buf', i')) :
+    Gen.SrcIdxFa.next (fillBufOp sched) consumeOp cap s (toRec idx) bl lo buf i fuel =
+      Res.ok (some (.error e), s', 0, lo', buf', buf'.length) := by
+  have h1 : ¬ i < buf.length := by omega
+  simp [Gen.SrcIdxFa.next, h1, hbl, hfb]
+
+theorem okItems_append (a b : Bytes) : okItems (a ++ b) = okItems a ++ okItems b := by simp [okItems]
+
+/-- **The drained iterator**, from any state with the loop invariant: the buffered bytes not yet yielded, then the
+requested bases when all of them lie inside the file; otherwise a correct strictly shorter prefix, then the truncation
+error as the last item. -/
+theorem drain_spec (f : Bytes) (sched : Nat → Nat) (idx : Idx) (cap stop fuel : Nat)
+    (hlb : 0 < idx.lb) (hlB : idx.lb < idx.lB) (hs : ∀ k, 0 < sched k) (h64 : idx.lB < 2 ^ 64)
+    (hcap : 0 < cap) (hstop : stop < 2 ^ 64) :
+    ∀ calls s lo cur line buf i, Inv f idx s lo cur line → cur ≤ stop → s.rest.length + 1 < fuel →
+      buf.length < 2 ^ 64 → (buf.length - i) + (stop - cur) + 2 ≤ calls →
+      ((∀ j, cur ≤ j → j < stop → pos idx j < f.length) →
+        drainIt sched cap idx fuel calls (s, stop - cur, lo, buf, i) =
+          Res.ok (okItems (buf.drop i ++ slice f idx cur stop))) ∧
+      (cur < stop → f.length ≤ pos idx (stop - 1) →
+        ∃ m, cur ≤ m ∧ m < stop ∧ (∀ j, cur ≤ j → j < m → pos idx j < f.length) ∧ f.length ≤ pos idx m ∧
+          drainIt sched cap idx fuel calls (s, stop - cur, lo, buf, i) =
+            Res.ok (okItems (buf.drop i ++ slice f idx cur m) ++ [.error eofErr])) := by
+  intro calls
+  induction calls with
+  | zero => intro s lo cur line buf i _ _ _ _ h; omega
+  | succ calls ih =>
+    intro s lo cur line buf i inv hcs hfuel hb64 hcalls
+    by_cases hi : i < buf.length
+    · -- a buffered byte
+      have hn := next_buffered sched cap idx fuel s (stop - cur) lo buf i hi hb64
+      obtain ⟨ih1, ih2⟩ := ih s lo cur line buf (i + 1) inv hcs hfuel hb64 (by omega)
+      have hdrop : buf.drop i = buf[i] :: buf.drop (i + 1) := (List.drop_eq_getElem_cons hi)
+      refine ⟨fun hall => ?_, fun hlt htr => ?_⟩
+      · rw [drainIt]
+        simp only [hn, Res.ok_bind, ih1 hall, Res.pure_eq_ok, hdrop, List.cons_append, okItems, List.map_cons]
+      · obtain ⟨m, m1, m2, m3, m4, m5⟩ := ih2 hlt htr
+        refine ⟨m, m1, m2, m3, m4, ?_⟩
+        rw [drainIt]
+        simp only [hn, Res.ok_bind, m5, Res.pure_eq_ok, hdrop, List.cons_append, okItems, List.map_cons]
+    · have hi' : buf.length ≤ i := by omega
+      have hdrop : buf.drop i = [] := List.drop_eq_nil_of_le hi'
+      by_cases hdone : stop - cur = 0
+      · have : cur = stop := by omega
+        subst this
+        refine ⟨fun _ => ?_, fun h => by omega⟩
+        rw [drainIt, Nat.sub_self]
+        simp only [next_done sched cap idx fuel s lo buf i hi', Res.ok_bind, Res.pure_eq_ok, hdrop, slice_self,
+          List.append_nil, okItems, List.map_nil]
+      · have hbl : 0 < stop - cur := by omega
+        obtain ⟨f1, f2⟩ := fillBuffer_spec f sched idx cap i (stop - cur) cur buf hlb hlB hs h64 hcap hbl fuel s lo line
+          inv hfuel
+        by_cases hin : pos idx cur < f.length
+        · obtain ⟨s', lo', n, line', n1, n2, hfb, inv', hshort, hinside⟩ := f1 hin
+          have hclen : (slice f idx cur (cur + n)).length = n := by rw [slice_length]; omega
+          have hc0 : 0 < (slice f idx cur (cur + n)).length := by rw [hclen]; exact n1
+          have hn := next_fill_ok sched cap idx fuel s s' (stop - cur) (stop - cur - n) lo lo' buf
+            (slice f idx cur (cur + n)) i hi' hbl hc0 hfb
+          have hbl' : stop - cur - n = stop - (cur + n) := by omega
+          rw [hbl'] at hn
+          have g1 : cur + n ≤ stop := by clear ih f1 f2 hfb hn hinside; omega
+          have g2 : s'.rest.length + 1 < fuel := by clear ih f1 f2 hfb hn hinside; omega
+          have g3 : (slice f idx cur (cur + n)).length < 2 ^ 64 := by clear ih f1 f2 hfb hn hinside; omega
+          have g4 : (slice f idx cur (cur + n)).length - 1 + (stop - (cur + n)) + 2 ≤ calls := by
+            clear ih f1 f2 hfb hn hinside; omega
+          obtain ⟨ih1, ih2⟩ := ih s' lo' (cur + n) line' (slice f idx cur (cur + n)) 1 inv' g1 g2 g3 g4
+          have hchunk : slice f idx cur (cur + n) =
+              (slice f idx cur (cur + n))[0]'(by omega) :: (slice f idx cur (cur + n)).drop 1 := by
+            have := List.drop_eq_getElem_cons (l := slice f idx cur (cur + n)) (i := 0) (by omega)
+            simpa using this
+          refine ⟨fun hall => ?_, fun hlt htr => ?_⟩
+          · rw [drainIt]
+            simp only [hn, Res.ok_bind, ih1 (fun j a b => hall j (by omega) b), Res.pure_eq_ok, hdrop, List.nil_append]
+            rw [← slice_append f idx (Nat.le_add_right cur n) (by omega : cur + n ≤ stop)]
+            conv => rhs; rw [hchunk]
+            simp only [okItems, List.map_cons, List.cons_append, List.map_append]
+          · by_cases hreach : cur + n = stop
+            · exfalso
+              have := hinside (n - 1) (by omega)
+              have e : cur + (n - 1) = stop - 1 := by omega
+              rw [e] at this
+              omega
+            · obtain ⟨m, m1, m2, m3, m4, m5⟩ := ih2 (by omega) htr
+              refine ⟨m, by omega, m2, ?_, m4, ?_⟩
+              · intro j j1 j2
+                by_cases hj : j < cur + n
+                · have := hinside (j - cur) (by omega)
+                  have e : cur + (j - cur) = j := by omega
+                  rw [e] at this; exact this
+                · exact m3 j (by omega) j2
+              · rw [drainIt]
+                simp only [hn, Res.ok_bind, m5, Res.pure_eq_ok, hdrop, List.nil_append]
+                rw [← slice_append f idx (Nat.le_add_right cur n) m1]
+                conv => rhs; rw [hchunk]
+                simp only [okItems, List.map_cons, List.cons_append, List.map_append, List.append_assoc]
+        · have hout : f.length ≤ pos idx cur := by omega
+          obtain ⟨s', bl', lo', buf', bi', hfb⟩ := f2 hout
+          have hn := next_fill_err sched cap idx fuel s s' (stop - cur) bl' lo lo' buf buf' i bi' eofErr hi' hbl hfb
+          have hcalls' : ∃ c, calls = c + 1 := ⟨calls - 1, by omega⟩
+          obtain ⟨c, hc⟩ := hcalls'
+          have hend : drainIt sched cap idx fuel calls (s', 0, lo', buf', buf'.length) = Res.ok [] := by
+            rw [hc, drainIt]
+            simp only [next_done sched cap idx fuel s' lo' buf' buf'.length (Nat.le_refl _), Res.ok_bind, Res.pure_eq_ok]
+          refine ⟨fun hall => ?_, fun hlt htr => ⟨cur, Nat.le_refl _, hlt, fun j a b => by omega, hout, ?_⟩⟩
+          · have := hall cur (Nat.le_refl _) (by omega); omega
+          · rw [drainIt]
+            simp only [hn, Res.ok_bind, hend, Res.pure_eq_ok, hdrop, slice_self, List.append_nil, okItems, List.map_nil,
+              List.nil_append]
+
+
+/-- the items the model's drained iterator stands for: the bytes, then the error that ended it (if any) -/
+def itemsOf (r : Bytes × Option Err) : List (Except IoErr Nat) :=
+  okItems r.1 ++ (match r.2 with | none => [] | some e => [.error (toIo e)])
+
+/-- **The drained translated iterator = the mirror model's `readLoop`** with the capacity `read_into_iter` asks for, from
+the state `seek_to` leaves — for every file, `.fai` entry with `0 < line_bases < line_bytes`, chunk schedule, and *every
+positive value* of `self.buf.capacity()` (`Vec::with_capacity(c)` only promises `≥ c`; the chunk size is not observable). -/
+theorem iter_eq_model (file : Bytes) (sched : Nat → Nat) (idx : Idx) (cap start stop fuel calls : Nat)
+    (hlb : 0 < idx.lb) (hlB : idx.lb < idx.lB) (hs : ∀ k, 0 < sched k) (h64 : idx.lB < 2 ^ 64)
+    (hcap : 0 < cap) (hstop : stop < 2 ^ 64) (h1 : start ≤ stop) (hfuel : file.length + 1 < fuel)
+    (hcalls : stop - start + 2 ≤ calls) :
+    drainIt sched cap idx fuel calls
+        ((IdxFa.seekTo file idx start).1, stop - start, (IdxFa.seekTo file idx start).2, [], 0) =
+      Res.ok (itemsOf (readLoop sched idx (min 512 (min (stop - start) idx.lb)) (file.length + 1)
+        (IdxFa.seekTo file idx start).1 (IdxFa.seekTo file idx start).2 (stop - start))) := by
+  have inv := seekTo_inv file idx start hlb hlB
+  have hfl := seekTo_fuel file idx start
+  have hS := drain_spec file sched idx cap stop fuel hlb hlB hs h64 hcap hstop calls _ _ start _ [] 0 inv h1 (by omega)
+    (by simp) (by simpa using hcalls)
+  by_cases he : start = stop
+  · subst he
+    rw [hS.1 (fun j a b => by omega), Nat.sub_self]
+    simp [readLoop, itemsOf, okItems, slice_self]
+  have hcap' : 0 < min 512 (min (stop - start) idx.lb) := by omega
+  have hM := readLoop_spec' file sched idx _ stop hlb hlB hs hcap' (file.length + 1) _ _ start _ inv h1 hfl
+  rcases inside_or_cut file idx hlb hlB start stop with hin | ⟨hlt, hcut⟩
+  · rw [hS.1 hin, hM.1 hin]
+    simp [itemsOf]
+  · obtain ⟨m, m1, m2, m3, m4, m5⟩ := hS.2 hlt hcut
+    obtain ⟨m', n1, n2, n3, n4, n5⟩ := hM.2 hlt hcut
+    have hmm : m = m' := by
+      rcases Nat.lt_trichotomy m m' with h | h | h
+      · have := n3 m m1 h; omega
+      · exact h
+      · have := m3 m' n1 h; omega
+    subst hmm
+    rw [m5, n5]
+    simp [itemsOf, toIo]
 
 end RbV.Thm.GenSrcIdxFa
